@@ -221,15 +221,17 @@ func jobs() []*job {
 		{"1/1", &http2.PriorityWriteSchedulerConfig{MaxClosedNodesInTree: 1, MaxIdleNodesInTree: 1}},
 		{"2/2", &http2.PriorityWriteSchedulerConfig{MaxClosedNodesInTree: 2, MaxIdleNodesInTree: 2}},
 		{"throttle", &http2.PriorityWriteSchedulerConfig{MaxClosedNodesInTree: 10, MaxIdleNodesInTree: 10, ThrottleOutOfOrderWrites: true}},
+		{"0/2", &http2.PriorityWriteSchedulerConfig{MaxClosedNodesInTree: 0, MaxIdleNodesInTree: 2}},
+		{"2/0", &http2.PriorityWriteSchedulerConfig{MaxClosedNodesInTree: 2, MaxIdleNodesInTree: 0}},
 	}
 	for _, c := range pcs {
 		// tree: all updates among 3 openable streams + idle 7 (+ 9, 11 to overflow the idle list)
 		js = append(js, &job{name: "priority[" + c.name + "]/tree", sched: "priority", cfgName: c.name, cfg: c.cfg, maxFrame: 16384, initSW: 3, initCW: 8,
 			ops:    treeOps(u(1, 3, 5), u(1, 3, 5, 7), u(0, 1, 3, 5, 7), []uint8{0, 255}, u(9, 11), [][2]uint32{{3, 1}, {5, 7}}, u(1, 3)),
-			depthQ: map[bool]int{true: 3, false: 4}[c.name == "throttle"], depthT: map[bool]int{true: 4, false: 5}[c.name == "throttle"]}) // with 5-byte frames the throttle tree job repeats the default one
+			depthQ: map[bool]int{true: 3, false: 4}[c.name == "throttle" || c.name == "0/2" || c.name == "2/0"], depthT: map[bool]int{true: 4, false: 5}[c.name == "throttle"]}) // with 5-byte frames the throttle tree job repeats the default one
 		// flow: same alphabet as the other schedulers plus two re-parentings
 		for _, mf := range []int32{2, 16384} {
-			if mf == 16384 && c.name != "default" && c.name != "throttle" {
+			if mf == 16384 && c.name != "default" && c.name != "throttle" || c.name == "0/2" || c.name == "2/0" {
 				continue
 			}
 			js = append(js, &job{name: fmt.Sprintf("priority[%s]/flow/maxframe=%d", c.name, mf), sched: "priority", cfgName: c.name, cfg: c.cfg, maxFrame: mf, initSW: 3, initCW: 8,
@@ -647,7 +649,7 @@ func treeString(snap *http2.VerifC20Snap) string {
 
 const bigWindow = 1 << 20
 
-const watchdog = 15 * time.Second
+const watchdogTicks = 30 // x 500 ms
 
 // drain opens every window and pops until the scheduler reports nothing: what
 // comes out must be exactly what the reference still owes.
@@ -777,7 +779,7 @@ type search struct {
 	mu          sync.Mutex
 	found       map[string]*found
 	feats       map[string]struct{}
-	samples     [][]string
+	samples     []map[string]any
 	states      int64
 	trans       int64
 	drains      int64
@@ -795,8 +797,14 @@ type search struct {
 }
 
 type workerState struct {
-	busySince atomic.Int64 // unix nanos of the start of the current implementation call batch, 0 = idle
-	cur       atomic.Pointer[curExec]
+	seq  atomic.Uint64 // incremented at the start of every execution (replay + operation / state checks)
+	busy atomic.Bool
+	cur  atomic.Pointer[curExec]
+}
+
+func (w *workerState) begin() {
+	w.seq.Add(1)
+	w.busy.Store(true)
 }
 
 type curExec struct {
@@ -878,13 +886,13 @@ func (se *search) replayW(w *workerState, lc *local, h hist) *sys {
 func (se *search) expand(w *workerState, lc *local, h hist, lvl int) {
 	j := se.j
 	w.cur.Store(&curExec{h: h, op: -1, what: "replay + tree invariant + drain"})
-	w.busySince.Store(time.Now().UnixNano())
+	w.begin()
 	s := se.replayW(w, lc, h)
 	snap := http2.VerifC20Snapshot(s.ws)
 	if j.sched == "priority" {
 		if vi := s.checkTree(&snap); vi != nil {
 			se.record(h, "", vi)
-			w.busySince.Store(0)
+			w.busy.Store(false)
 			return
 		}
 	}
@@ -904,7 +912,7 @@ func (se *search) expand(w *workerState, lc *local, h hist, lvl int) {
 	lc.drainPops += int64(pops)
 	if vi != nil {
 		se.record(h, "", vi)
-		w.busySince.Store(0)
+		w.busy.Store(false)
 		return
 	}
 	nh := make(hist, len(h)+2)
@@ -919,7 +927,7 @@ func (se *search) expand(w *workerState, lc *local, h hist, lvl int) {
 		seen := map[uint8]bool{}
 		for attempt := 0; len(seen) < want && attempt < 400*want; attempt++ {
 			w.cur.Store(&curExec{h: h, op: i, what: o.name})
-			w.busySince.Store(time.Now().UnixNano())
+			w.begin()
 			s2 := se.replayW(w, lc, h)
 			z0 := s2.ref.ZombiePops
 			out, ch, vi := s2.step(o)
@@ -944,7 +952,7 @@ func (se *search) expand(w *workerState, lc *local, h hist, lvl int) {
 			lc.incomplete++
 		}
 	}
-	w.busySince.Store(0)
+	w.busy.Store(false)
 }
 
 func (se *search) run(nw int) {
@@ -959,10 +967,13 @@ func (se *search) run(nw int) {
 		sn := http2.VerifC20Snapshot(s.ws)
 		se.insert(hashKey(s.key(&sn)), nil, 0)
 	}
-	se.workers = make([]*workerState, nw)
-	for i := range se.workers {
-		se.workers[i] = &workerState{}
+	wk := make([]*workerState, nw)
+	for i := range wk {
+		wk[i] = &workerState{}
 	}
+	se.mu.Lock()
+	se.workers = wk
+	se.mu.Unlock()
 	for lvl := 0; lvl <= se.depth; lvl++ {
 		var frontier []hist
 		for i := range se.buckets {
@@ -979,10 +990,12 @@ func (se *search) run(nw int) {
 		sort.Slice(frontier, func(a, b int) bool { return lessHist(frontier[a], frontier[b]) })
 		se.levelStates = append(se.levelStates, int64(len(frontier)))
 		se.states += int64(len(frontier))
-		if lvl == se.depth || lvl == 2 {
-			for i := 0; i < len(frontier) && len(se.samples) < 3; i += 1 + len(frontier)/3 {
-				se.samples = append(se.samples, frontier[len(frontier)-1-i].ops(se.j))
-			}
+		if lvl == se.depth {
+			// one deep case per job, written out with the state it leads to
+			h := frontier[len(frontier)/2]
+			st := replay(se.j, h)
+			sn := http2.VerifC20Snapshot(st.ws)
+			se.samples = append(se.samples, map[string]any{"job": se.j.name, "ops": h.ops(se.j), "state": st.key(&sn)})
 		}
 		var next atomic.Int64
 		var wg sync.WaitGroup
@@ -1000,7 +1013,7 @@ func (se *search) run(nw int) {
 						}
 						herr.CompareAndSwap(nil, &m)
 						se.stop.Store(true)
-						w.busySince.Store(0)
+						w.busy.Store(false)
 					}
 					se.mu.Lock()
 					se.trans += lc.trans
@@ -1096,6 +1109,28 @@ func consequences(j *job, h hist, id uint32) string {
 	try(mkD(id, 5, true))
 	try(mkH(id))
 	try(mkClose(id))
+	// the same history with a HEADERS frame queued on the stream right after it was opened
+	func() {
+		defer func() { recover() }()
+		hi := -1
+		for i := range j.ops {
+			if j.ops[i].k == opPushH && j.ops[i].s == id {
+				hi = i
+			}
+		}
+		for i := 0; i+1 < len(h) && hi >= 0; i += 2 {
+			if o := j.ops[h[i]]; o.k == opOpen && o.s == id {
+				h2 := append(hist(nil), h[:i+2]...)
+				h2 = append(h2, byte(hi), 0)
+				h2 = append(h2, h[i+2:]...)
+				s := replay(j, h2)
+				if _, vi := s.drain(); vi != nil {
+					out = append(out, fmt.Sprintf("same history with %s right after the Open: %s", j.ops[hi].name, vi.msg))
+				}
+				return
+			}
+		}
+	}()
 	return strings.Join(out, "; ")
 }
 
@@ -1190,7 +1225,7 @@ func TestCheck(t *testing.T) {
 		"operations the WriteScheduler contract forbids are not generated: OpenStream of an open or once-closed stream, CloseStream of a non-open stream, HEADERS/DATA pushes on non-open streams, stream id 0",
 		"random scheduler: which ready stream Pop serves is decided by Go's map iteration; Pop is repeated (≤400 tries per ready stream) until every ready stream has been observed as the choice, so all successors are explored; states where that did not succeed are counted in random_pop_choice_sets_incomplete (0 = none)",
 		"frames queued on a stream at the time it is closed are outside the statement's hand-out obligation: handing one out (at most once) is tolerated and counted in zombie_pops",
-		"a Pop that never returns is detected by a wall-clock watchdog (15 s for a microsecond operation) and confirmed in 5 fresh processes")
+		"a Pop that never returns is detected by a watchdog (a worker that stays in one scheduler call for 30 watchdog ticks of 500 ms; a call takes microseconds) and confirmed in 5 fresh processes")
 	all := jobs()
 	type jobSum struct {
 		Name        string  `json:"job"`
@@ -1202,6 +1237,7 @@ func TestCheck(t *testing.T) {
 		WallS       float64 `json:"wall_s"`
 	}
 	var sums []jobSum
+	var allSamples []map[string]any
 	for k, j := range all {
 		if k%of != shard {
 			continue
@@ -1228,23 +1264,38 @@ func TestCheck(t *testing.T) {
 		t0 := time.Now()
 		// watchdog
 		wdStop := make(chan struct{})
-		hangCh := make(chan *curExec, 1)
+		hangCh := make(chan *curExec)
 		go func() {
+			// no clock comparison (the wall clock of the sandbox VM can jump): an execution is suspected to hang
+			// when the watchdog itself has been scheduled watchdogTicks times, 500 ms apart, and the worker is
+			// still inside the same execution
 			tk := time.NewTicker(500 * time.Millisecond)
 			defer tk.Stop()
+			last := map[*workerState]uint64{}
+			stuck := map[*workerState]int{}
 			for {
 				select {
 				case <-wdStop:
 					return
 				case <-tk.C:
-					now := time.Now().UnixNano()
-					for _, w := range se.workers {
-						if b := w.busySince.Load(); b != 0 && now-b > int64(watchdog) {
+					se.mu.Lock()
+					ws := se.workers
+					se.mu.Unlock()
+					for _, w := range ws {
+						q := w.seq.Load()
+						if w.busy.Load() && q == last[w] {
+							stuck[w]++
+						} else {
+							stuck[w] = 0
+						}
+						last[w] = q
+						if stuck[w] >= watchdogTicks {
+							stuck[w] = 0
 							select {
 							case hangCh <- w.cur.Load():
-							default:
+							case <-wdStop:
+								return
 							}
-							return
 						}
 					}
 				}
@@ -1255,40 +1306,43 @@ func TestCheck(t *testing.T) {
 			defer func() { done <- recover() }()
 			se.run(nw)
 		}()
-		var hang *curExec
-		select {
-		case r := <-done:
-			if r != nil {
-				rep.HarnessError("%s: %v", j.name, r)
-			}
-		case hang = <-hangCh:
-			se.stop.Store(true)
-		}
-		close(wdStop)
-		if hang != nil {
-			hung, completed := confirmHang(childCase{Job: j.name, Hist: hang.h, Op: hang.op})
-			opsList := hang.h.ops(j)
-			if hang.op >= 0 {
-				opsList = append(opsList, j.ops[hang.op].name)
-			} else {
-				opsList = append(opsList, "(open all windows) Pop…")
-			}
-			if hung == 5 {
+	wait:
+		for {
+			select {
+			case r := <-done:
+				if r != nil {
+					rep.HarnessError("%s: %v", j.name, r)
+				}
+				break wait
+			case hang := <-hangCh:
+				hung, completed := confirmHang(childCase{Job: j.name, Hist: hang.h, Op: hang.op})
+				opsList := hang.h.ops(j)
+				if hang.op >= 0 {
+					opsList = append(opsList, j.ops[hang.op].name)
+				} else {
+					opsList = append(opsList, "(open all windows) Pop…")
+				}
+				if hung < 5 {
+					// the worker was merely starved (loaded machine): keep searching
+					rep.Add("watchdog_suspicions_not_confirmed", 1)
+					_ = completed
+					continue
+				}
+				se.stop.Store(true)
 				vi := &violation{kind: "hang", extra: map[string]any{}}
 				rep.Violate(se.sig(vi), map[string]any{"job": j.name, "ops": opsList},
-					"%s: the scheduler does not return: after %v the call %s runs forever (watchdog 15 s; reproduced in 5 of 5 fresh processes, each killed after 6 s)", j.name, hang.h.ops(j), opsList[len(opsList)-1])
-			} else {
-				rep.HarnessError("%s: watchdog fired on %v but only %d of 5 fresh processes hung (%d completed)", j.name, opsList, hung, completed)
+					"%s: the scheduler does not return: after %v the call %s runs forever (the worker stayed in this one call for %d watchdog ticks of 500 ms; reproduced in 5 of 5 fresh processes, each killed after 6 s)", j.name, hang.h.ops(j), opsList[len(opsList)-1], watchdogTicks)
+				// a goroutine is spinning inside the scheduler: report and leave
+				rep.NotExhaustive("search of " + j.name + " abandoned: a scheduler call does not return")
+				rep.Add("states", max64(se.states, 1))
+				rep.Add("transitions", max64(se.trans, 1))
+				rep.Add("traces_validated_against_impl", se.trans)
+				rep.Sample(map[string]any{"job": j.name, "ops": opsList})
+				rep.Write()
+				os.Exit(1)
 			}
-			// a goroutine is spinning inside the scheduler: report and leave
-			rep.NotExhaustive("search of " + j.name + " abandoned: a scheduler call does not return")
-			rep.Add("states", max64(se.states, 1))
-			rep.Add("transitions", max64(se.trans, 1))
-			rep.Add("traces_validated_against_impl", se.trans)
-			rep.Sample(map[string]any{"job": j.name, "ops": opsList})
-			rep.Write()
-			os.Exit(1)
 		}
+		close(wdStop)
 		// merge
 		rep.Add("states", se.states)
 		rep.Add("transitions", se.trans)
@@ -1304,9 +1358,7 @@ func TestCheck(t *testing.T) {
 		for f := range se.feats {
 			rep.Note("distinct_nontrivial", f)
 		}
-		for _, s := range se.samples {
-			rep.Sample(map[string]any{"job": j.name, "ops": s})
-		}
+		allSamples = append(allSamples, se.samples...)
 		sums = append(sums, jobSum{j.name, depth, len(j.ops), se.states, se.trans, se.levelStates, time.Since(t0).Seconds()})
 		if se.capped != "" {
 			rep.NotExhaustive(se.capped)
@@ -1343,6 +1395,9 @@ func TestCheck(t *testing.T) {
 			rep.Violate(se.sig(f.vi), map[string]any{"job": j.name, "ops": opsList, "maxFrame": j.maxFrame, "initialStreamWindow": j.initSW, "initialConnWindow": j.initCW, "where": where},
 				"%s: after %v: %s", j.name, opsList, f.vi.msg)
 		}
+	}
+	for i := 0; i < 6 && len(allSamples) > 0; i++ {
+		rep.Sample(allSamples[i*len(allSamples)/6])
 	}
 	rep.Info["jobs_detail"] = sums
 	rep.Info["tier_bounds"] = "depth per job in jobs_detail; quick and thorough use the same alphabets, thorough searches deeper"
